@@ -51,6 +51,9 @@ pub fn install_quiet_panic_hook() {
             .location()
             .map(|l| format!("{}:{}", l.file(), l.line()))
             .unwrap_or_default();
+        if std::env::var("VERIF_DEBUG").is_ok() {
+            eprintln!("[panic] {info}");
+        }
         LAST_PANIC_LOC.with(|c| {
             // keep the FIRST panic location of a run (later ones are usually consequences)
             let mut c = c.borrow_mut();
